@@ -26,7 +26,8 @@ RULE = ("one run = one Resampler with drawn period (0.1-2 s), max_data_age_in_pe
         "down-sampling), stamps = arrival time / in the past / in the future / exactly on a tick / exactly T - max_age*period, "
         "values valid / None / NaN; non-trivial = some tick had a boundary-stamped, future-stamped or invalid sample or the "
         "buffer was resized; distinct = abstract digest of (sample kind, source) / tick sequence"
-        " Also: periods of a day / 25 h, per-source UTC offsets of the stamps.")
+        " Also: periods of a day / 25 h, per-source UTC offsets of the stamps."
+        " Also +-inf sample values (valid).")
 QUICK_RUNS = 4000
 THOROUGH_RUNS = 250_000
 EXPECT_PROBES = ["equal_timestamps", "stamp_exactly_T", "stamp_exactly_lower_edge", "future_stamp", "none_or_nan_sample", "buffer_resized",
